@@ -1355,7 +1355,18 @@ pub fn gen_plan(seed: u64, backend: Backend, entry: Entry, focus: Focus, thoroug
 pub fn exec(plan: &SeqPlan) -> RunOut {
     let mut out = RunOut::default();
     crate::world::begin_run(plan.seed, plan.start_us);
-    let mut w = match World::new(plan.seed, plan.backend, plan.entry, plan.page_size, plan.n_clients, plan.cfg, None) {
+    // swarm knob (HTTP entry): an allow-list naming every client of the history plus two strangers. Listed
+    // clients are served exactly as if there were no list, also across restarts, so nothing else changes.
+    let allow = if plan.entry == Entry::Http && crate::rng::mix(&[plan.seed, 0xA110]) % 6 == 0 {
+        let mut s: HashSet<Uuid> = (0..plan.n_clients).map(|c| client_id(plan.seed, c)).collect();
+        s.insert(ops::fresh_id(plan.seed, 5000));
+        s.insert(ops::fresh_id(plan.seed, 5001));
+        out.bump("cfg.allowlist_naming_every_client");
+        Some(s)
+    } else {
+        None
+    };
+    let mut w = match World::new(plan.seed, plan.backend, plan.entry, plan.page_size, plan.n_clients, plan.cfg, allow) {
         Ok(w) => w,
         Err(e) => {
             out.harness_error = Some(format!("world setup failed: {e:#}"));
